@@ -582,12 +582,57 @@ func discardedErrors(x *Ctx, fns []*ssa.Function) {
 					if r, audited := auditedDiscards[load.ShortName(o)+"|"+label]; audited {
 						ok2, why = true, "audited: "+r
 					}
+					// the audited call moved into a new helper that hands its two results on as they are
+					if fl := forwardedLabel(x, c); fl != "" {
+						if r, audited := auditedDiscards[load.ShortName(o)+"|"+fl]; audited {
+							ok2, why = true, "audited (through "+label+"): "+r
+						}
+					}
 				}
 				x.C.Obl("C09.P4", key, x.P.Pos(c.Pos()), "the error of "+label+" is discarded and its value used: the call must be total under a fact on the path ("+why+")", ok2,
 					"no recognised idiom makes this call total: check the error, or establish the kind / length fact before the call")
 			}
 		}
 	}
+}
+
+// forwardedLabel: when the callee of c is a new helper of the module every return of which hands on the results
+// of one and the same call (return g(...)), the label of that call.
+func forwardedLabel(x *Ctx, c *ssa.Call) string {
+	h := c.Call.StaticCallee()
+	if h == nil || len(h.Blocks) == 0 || !x.P.IsNewHelper(h) {
+		return ""
+	}
+	label := ""
+	for _, b := range h.Blocks {
+		for _, in := range b.Instrs {
+			r, ok := in.(*ssa.Return)
+			if !ok {
+				continue
+			}
+			if len(r.Results) < 2 {
+				return ""
+			}
+			var inner *ssa.Call
+			for i, v := range r.Results {
+				e, ok := v.(*ssa.Extract)
+				if !ok || e.Index != i {
+					return ""
+				}
+				c2, ok := e.Tuple.(*ssa.Call)
+				if !ok || (inner != nil && inner != c2) {
+					return ""
+				}
+				inner = c2
+			}
+			l := calleeLabel(inner)
+			if label != "" && label != l {
+				return ""
+			}
+			label = l
+		}
+	}
+	return label
 }
 
 func discardIdiom(x *Ctx, f *ssa.Function, ps []*paths.Path, c *ssa.Call, label string) (bool, string) {
